@@ -718,11 +718,76 @@ def inline_tree(tree, no_inline=frozenset()):
     t = copy.deepcopy(tree)
     split_tuple_assigns(t)
     n_unrolled = unroll_constant_loops(t)
+    n_unrolled += propagate_module_constants(t)
     inl = Inliner(t)
     inl.no_inline = no_inline
     inl.n_inlined += n_unrolled
     inl.run()
     return t, inl.n_inlined
+
+
+# ---------------------------------------------------------------------- module constants
+def propagate_module_constants(tree):
+    """NAME = "literal" (or an int), bound exactly once at module level and never re-bound in
+    a function: every read of NAME inside the functions of the module becomes the literal, so
+    that `entry[KEY_ID]` and `entry["id"]` are the same text for every rule.  Returns the
+    number of reads replaced."""
+    consts, counts = {}, {}
+    for s_ in tree.body:
+        targets = []
+        if isinstance(s_, ast.Assign):
+            targets = [t for t in s_.targets if isinstance(t, ast.Name)]
+            val = s_.value
+        elif isinstance(s_, ast.AnnAssign) and isinstance(s_.target, ast.Name) and s_.value is not None:
+            targets, val = [s_.target], s_.value
+        for t in targets:
+            counts[t.id] = counts.get(t.id, 0) + 1
+            if isinstance(val, ast.Constant) and isinstance(val.value, (str, int)) and not isinstance(
+                    val.value, bool):
+                consts[t.id] = val.value
+    consts = {k: v for k, v in consts.items() if counts.get(k) == 1}
+    if not consts:
+        return 0
+    n = 0
+
+    def funcs(node):
+        for x in ast.iter_child_nodes(node):
+            if isinstance(x, (ast.FunctionDef, ast.AsyncFunctionDef)):
+                yield x
+            elif isinstance(x, ast.ClassDef):
+                for y in funcs(x):
+                    yield y
+
+    class _Sub(ast.NodeTransformer):
+        def __init__(self, shadow):
+            self.shadow = shadow
+            self.n = 0
+
+        def visit_Name(self, node):
+            if isinstance(node.ctx, ast.Load) and node.id in consts and node.id not in self.shadow:
+                self.n += 1
+                return ast.copy_location(ast.Constant(value=consts[node.id]), node)
+            return node
+
+        def visit_Global(self, node):
+            return node
+
+    for fn in funcs(tree):
+        shadow = {a.arg for a in fn.args.args + fn.args.kwonlyargs + fn.args.posonlyargs}
+        if fn.args.vararg:
+            shadow.add(fn.args.vararg.arg)
+        if fn.args.kwarg:
+            shadow.add(fn.args.kwarg.arg)
+        for x in ast.walk(fn):
+            if isinstance(x, ast.Name) and isinstance(x.ctx, (ast.Store, ast.Del)):
+                shadow.add(x.id)
+            elif isinstance(x, (ast.Global, ast.Nonlocal)):
+                shadow |= set(x.names)
+        sub = _Sub(shadow)
+        # the signature (defaults) stays as written; only the body is rewritten
+        fn.body = [sub.visit(b) for b in fn.body]
+        n += sub.n
+    return n
 
 
 # ---------------------------------------------------------------------- constant loops
